@@ -277,3 +277,47 @@ func init() {
 		return true, sig, desc
 	}
 }
+
+// ProvenSpin reports a call that can never return although nothing is blocked: in three
+// dumps, gap apart, exactly ONE goroutine has frames of the packages - the application's
+// call itself (it has harness frames below and the awaited function on its stack) - and it
+// sits in the same chain of package functions every time, sleeping or running. No other
+// goroutine of the package exists that could change the state the call is polling, and the
+// application is inside the call: a polling loop whose condition nobody can make true.
+func ProvenSpin(needle string, gap time.Duration, pkgs ...string) (bool, string) {
+	prev := ""
+	desc := ""
+	for k := 0; k < 3; k++ {
+		if k > 0 {
+			time.Sleep(gap)
+		}
+		gs := InRepo(Dump(), pkgs...)
+		if len(gs) != 1 {
+			return false, fmt.Sprintf("%d goroutines have frames of the package", len(gs))
+		}
+		g := gs[0]
+		if !strings.Contains(g.Stack, "verifharness/") || !strings.Contains(g.Stack, needle) {
+			return false, "the only goroutine of the package is not the awaited call"
+		}
+		var fns []string
+		for _, l := range strings.Split(g.Stack, "\n") {
+			l = strings.TrimSpace(l)
+			for _, p := range pkgs {
+				if strings.HasPrefix(l, p) {
+					fn := strings.TrimPrefix(l, "github.com/openconfig/gribigo/")
+					if i := strings.LastIndex(fn, "("); i > 0 && !strings.HasPrefix(fn[i:], "(*") {
+						fn = fn[:i]
+					}
+					fns = append(fns, fn)
+				}
+			}
+		}
+		sig := g.ID + " " + strings.Join(fns, " < ")
+		if k > 0 && sig != prev {
+			return false, "the call is still moving through the package"
+		}
+		prev = sig
+		desc = fmt.Sprintf("g%s [%s] %s", g.ID, g.State, strings.Join(fns, " < "))
+	}
+	return true, desc
+}
